@@ -269,8 +269,18 @@ def run_real(case, date_patch=True):
             if fs["blksize"] is None:
                 return environ["wsgi.file_wrapper"](f)
             return environ["wsgi.file_wrapper"](f, fs["blksize"])
+        def failure():
+            # the application's own failure: mostly an ordinary exception; end[1] names an OSError of the application's (a missing
+            # file, a refused outbound connection ...) - not a dead peer
+            if len(end) > 1:
+                import errno as _errno
+                cls, no = {"FileNotFoundError": (FileNotFoundError, _errno.ENOENT), "PermissionError": (PermissionError, _errno.EACCES),
+                           "TimeoutError": (TimeoutError, _errno.ETIMEDOUT),
+                           "ConnectionRefusedError": (ConnectionRefusedError, _errno.ECONNREFUSED)}[end[1]]
+                return cls(no, "application failure (%s)" % end[1])
+            return AppError("application failure")
         if end[0] == "raise" and not rest and spec.get("raise_in_call"):
-            raise AppError("application failure")
+            raise failure()
 
         def gen():
             for a in rest:
@@ -284,7 +294,7 @@ def run_real(case, date_patch=True):
                 else:
                     yield a[1].encode("latin-1")
             if end[0] == "raise":
-                raise AppError("application failure")
+                raise failure()
         return gen()
 
     orig_create = wsgi.create
